@@ -36,7 +36,9 @@ def _wrap(name):
     real = getattr(os.path, name)
 
     def f(*a, **k):
-        if rt.anysym(a, k):
+        # abspath always goes through the copy: it consults os.getcwd(),
+        # which a harness may have stubbed
+        if rt.anysym(a, k) or name == 'abspath':
             return getattr(module(), name)(*a, **k)
         return real(*a, **k)
     return real, f
